@@ -225,6 +225,7 @@ func txResJ(code uint32, codespace string, data []byte, log string, gasW, gasU i
 // (harness error); application panics are observations, not errors.
 func (r *Runner) Step(ev M) error {
 	a := mStr(ev, "a")
+	expandAll(ev)
 	rec := J{"a": a, "args": ev}
 	res := J{}
 	switch a {
@@ -334,4 +335,27 @@ func (r *Runner) RunBehaviour(steps []M) error {
 		}
 	}
 	return nil
+}
+
+// expandAll replaces size-class strings ("LEN:n") by their concrete members in place, so that the
+// recording carries exactly what was submitted.
+func expandAll(v interface{}) {
+	switch x := v.(type) {
+	case map[string]interface{}:
+		for k, e := range x {
+			if s, ok := e.(string); ok {
+				x[k] = expandStr(s)
+			} else {
+				expandAll(e)
+			}
+		}
+	case []interface{}:
+		for i, e := range x {
+			if s, ok := e.(string); ok {
+				x[i] = expandStr(s)
+			} else {
+				expandAll(e)
+			}
+		}
+	}
 }
